@@ -173,7 +173,7 @@ func propC14(c *Ctx) int {
 func propC13(c *Ctx) int {
 	maxCtx := 0
 	if c.Tier == "thorough" {
-		maxCtx = 9
+		maxCtx = 8
 	}
 	var must []string
 	for _, kw := range []string{"JSIGHT", "INFO", "Title", "Version", "Description", "SERVER", "BaseUrl", "URL", "GET", "POST", "PUT", "PATCH", "DELETE", "Body", "Request", "Path", "Headers", "Query", "TYPE", "ENUM", "MACRO", "PASTE", "INCLUDE", "Protocol", "Method", "Params", "Result", "TAG", "Tags", "OperationId", "HTTP-response-code"} {
@@ -195,7 +195,7 @@ func propC13(c *Ctx) int {
 	}
 	return c.Finish("model_checking", []string{
 		"bound: directive-start position followed by at most 13 arbitrary bytes (all 256 values each); the scanner input ends after the deciding byte (first deviating byte / keyword terminator)",
-		"start contexts: quick = file start; thorough = 10 listed concrete prefixes (harness/scanner/zz_verif_c13.go)",
+		"start contexts: quick = file start; thorough = 9 listed concrete prefixes (harness/scanner/zz_verif_c13.go)",
 		"specification = frozen keyword list harness/scanner/zz_verif_spec.go (30 keywords + [1-5][0-9][0-9])",
 		contractLoc, contractRune,
 		"strconv.Atoi, strings.HasPrefix, sync.Once modelled/interpreted as listed in DESIGN.md §2.5",
